@@ -1,19 +1,35 @@
 package vm_test
 
 import (
-	"math"
 	"testing"
 
 	"github.com/mattn/anko/env"
 	"github.com/mattn/anko/vm"
 )
 
-// An integer and a float are equal exactly when both <= and >= hold between them,
-// in both operand orders, and != is the exact negation.
-func TestDemoC06IntFloatEqualityAgreesWithOrdering(t *testing.T) {
-	ints := []int64{0, 1, -1, 1 << 53, 1<<53 + 1, 1<<53 + 2, -(1<<53 + 1), math.MaxInt64, math.MaxInt64 - 1, math.MinInt64}
-	floats := []float64{0, 1, -1, 1.5, 1 << 53, 1<<53 + 2, -(1 << 53), 9.223372036854775807e18, -9.223372036854775808e18, 1e19, -1e19, 1e300}
-
+// A string and a number are equal exactly when the string is a decimal numeral
+// denoting that number; ==, !=, `in` and switch agree, in both operand orders.
+func TestDemoC06StringNumberEqualityIsDecimal(t *testing.T) {
+	tests := []struct {
+		s    string
+		n    interface{}
+		want bool
+	}{
+		{"10", int64(10), true},
+		{"010", int64(10), true},
+		{"010", int64(8), false},
+		{"-010", int64(-10), true},
+		{"-010", int64(-8), false},
+		{"0010", float64(10), true},
+		{"0010", float64(8), false},
+		{"08", int64(8), true},
+		{"0x10", int64(16), false},
+		{"0b11", int64(3), false},
+		{"0o17", int64(15), false},
+		{"1000", int64(1000), true},
+		{"0", int64(0), true},
+		{"00", int64(0), true},
+	}
 	run := func(e *env.Env, script string) bool {
 		v, err := vm.Execute(e, nil, script)
 		if err != nil {
@@ -25,24 +41,26 @@ func TestDemoC06IntFloatEqualityAgreesWithOrdering(t *testing.T) {
 		}
 		return b
 	}
-
-	for _, i := range ints {
-		for _, f := range floats {
-			e := env.NewEnv()
-			_ = e.Define("i", i)
-			_ = e.Define("f", f)
-			want := run(e, "i <= f && i >= f")
-			if got := run(e, "i == f"); got != want {
-				t.Errorf("i=%d f=%v: i == f is %v but (i <= f && i >= f) is %v", i, f, got, want)
-			}
-			if got := run(e, "f == i"); got != want {
-				t.Errorf("i=%d f=%v: f == i is %v but (i <= f && i >= f) is %v", i, f, got, want)
-			}
-			if got := run(e, "i != f"); got != !want {
-				t.Errorf("i=%d f=%v: i != f is %v but (i <= f && i >= f) is %v", i, f, got, want)
-			}
-			if got := run(e, "i in [f]"); got != want {
-				t.Errorf("i=%d f=%v: i in [f] is %v but (i <= f && i >= f) is %v", i, f, got, want)
+	for _, tt := range tests {
+		e := env.NewEnv()
+		_ = e.Define("s", tt.s)
+		_ = e.Define("n", tt.n)
+		checks := []struct {
+			script string
+			want   bool
+		}{
+			{"s == n", tt.want},
+			{"n == s", tt.want},
+			{"s != n", !tt.want},
+			{"n != s", !tt.want},
+			{"s in [n]", tt.want},
+			{"n in [s]", tt.want},
+			{"r = false; switch s { case n: r = true }; r", tt.want},
+			{"r = false; switch n { case s: r = true }; r", tt.want},
+		}
+		for _, c := range checks {
+			if got := run(e, c.script); got != c.want {
+				t.Errorf("s=%q n=%v: %s is %v, want %v", tt.s, tt.n, c.script, got, c.want)
 			}
 		}
 	}
